@@ -1346,7 +1346,7 @@ def c13_vacuum_order(env, ob):
     return trace_obligation(env, ob, ctx, res, bad, "vacuum ordering")
 
 
-@obligation(id="C09.aborted_reload_range", also="C02", funcs="PageZeroHeader::get_aborted_transactions,PageZeroHeader::is_transaction_aborted",
+@obligation(id="C09.aborted_reload_range", also="C02,C04", funcs="PageZeroHeader::get_aborted_transactions,PageZeroHeader::is_transaction_aborted",
             bounds="the id range scanned when the aborted set is reloaded at open vs the id range the bitmap test accepts; "
                    "named constants are uninterpreted symbols (same name = same value)", native="c09_aborted_reload")
 def c09_aborted_reload(env, ob):
@@ -1483,7 +1483,7 @@ def c13_cache_clear_keeps_capacity(env, ob):
     return result(ob, "inconclusive", reason=chk[0]["verdict"], **kw)
 
 
-@obligation(id="C02.abort_marks_bitmap", also="C03,C09", funcs="TransactionCoordinator::abort",
+@obligation(id="C02.abort_marks_bitmap", also="C03,C09,C04", funcs="TransactionCoordinator::abort",
             bounds="every path of TransactionCoordinator::abort; callees uninterpreted", native="c02_abort_after_vacuum_is_persisted")
 def c02_abort_marks(env, ob):
     """Every successful abort persists the aborted state (PageZero bitmap) - also when the in-memory entry is already
@@ -1496,7 +1496,37 @@ def c02_abort_marks(env, ob):
         if not idx(path, r"mark_transaction_aborted$"):
             return ("abort_ok_without_persisting_aborted_bit", ret_is_ok(rv))
         return None
-    return trace_obligation(env, ob, ctx, res, bad, "abort() returns Ok without marking the transaction in the persistent bitmap")
+    a = trace_obligation(env, ob, ctx, res, bad, "abort() returns Ok without marking the transaction in the persistent bitmap")
+
+    # snapshot() builds every later snapshot's aborted set from the in-memory table: the entry has to stay there, marked
+    def bad_forget(path, rv):
+        if path.panics or rv is None:
+            return None
+        if idx(path, r"(HashMap|BTreeMap)::<.*>::(remove|remove_entry|clear)"):
+            return ("aborted_transaction_dropped_from_the_table_snapshots_are_built_from", ret_is_ok(rv))
+        if not idx(path, r"(HashMap|BTreeMap)::<.*>::get_mut"):
+            return ("abort_ok_without_touching_the_transaction_entry", ret_is_ok(rv))
+        return None
+    b = trace_obligation(env, ob, ctx, res, bad_forget, "abort() forgets the transaction instead of marking it Aborted")
+    return merge(a, b)
+
+
+@obligation(id="C13.force_aborted_sessions_stay_known", also="C04,C02", funcs="TransactionCoordinator::abort_all",
+            bounds="every path of TransactionCoordinator::abort_all (loop unrolled once); callees uninterpreted",
+            native="c13_vacuum_with_open_writer")
+def c13_abort_all(env, ob):
+    """VACUUM force-aborts the sessions that are still open.  The in-memory table is the only record that they did not
+    commit (abort_all does not write the bitmap) and every later snapshot - the vacuum's own included - takes its aborted
+    set from it: the entries must stay, marked Aborted; dropping them makes the sessions' rows read as committed."""
+    ctx, f, args, res = explore(env, COORD, "abort_all", loop_bound=1)
+
+    def bad(path, rv):
+        if path.panics:
+            return None
+        if idx(path, r"(HashMap|BTreeMap)::<.*>::(retain|remove|remove_entry|clear|drain|extract_if)"):
+            return ("open_transactions_dropped_from_the_table_instead_of_marked_aborted", None)
+        return None
+    return trace_obligation(env, ob, ctx, res, bad, "abort_all removes entries from the transaction table", cuts_ok=True)
 
 
 @obligation(id="C09.allocated_page_is_dirty", also="C11,C12", funcs="Pager::allocate_page",
@@ -1697,6 +1727,35 @@ def c06_join_assoc(env, ob):
     return trace_obligation(env, ob, ctx, res, bad, "join associativity redistributes the wrong conditions", cuts_ok=True)
 
 
+@obligation(id="C06.key_only_joins_need_pure_equi_conditions", funcs="JoinRule::implement",
+            bounds="every path of <JoinRule as ImplementationRule>::implement (loops unrolled once); callees uninterpreted",
+            native="c06_join_with_extra_conjunct")
+def c06_join_rule(env, ob):
+    """HashJoinOp / MergeJoinOp are built from the extracted key pairs only (no residual condition): they may be offered
+    as alternatives to the nested-loop join only when the WHOLE join condition is a conjunction of key equalities
+    (JoinOp::is_equi_join); otherwise the other conjuncts are silently never evaluated once the cost model picks them."""
+    ctx, f, args, res = explore(env, "sql/planner/rules.rs", "implement", sig=r"&JoinRule", loop_bound=1)
+
+    def bad(path, rv):
+        if path.panics or rv is None:
+            return None
+        hj = idx(path, r"(HashJoinOp::new|PhysicalOperator::HashJoin|PhysicalOperator::MergeJoin)$")
+        keys = idx(path, r"extract_equi_keys$")
+        first = (hj or keys)
+        if not first:
+            return None
+        eq = [i for i in idx(path, r"is_equi_join$") if i < first[0]]
+        if not eq:
+            return ("key_only_join_offered_without_checking_that_the_condition_is_a_pure_equi_join", None)
+        r = path.events[eq[-1]]["ret"]
+        if isinstance(r, Leaf) and r.term in path.pc:
+            return None
+        return ("key_only_join_offered_although_the_condition_is_not_a_pure_equi_join", None)
+    if not any(idx(p, r"extract_equi_keys$") for p, rv in res):
+        return result(ob, "inconclusive", reason="vacuity: JoinRule::implement never extracts equi keys", paths=len(res))
+    return trace_obligation(env, ob, ctx, res, bad, "JoinRule offers a hash / merge join for a condition with non-key conjuncts", cuts_ok=True)
+
+
 @obligation(id="C06.index_scan_is_exhaustive", funcs="IndexScan::next",
             bounds="every path of IndexScan::next through <= 2 index entries; tree / predicate calls uninterpreted",
             native="c06_composite_index_upper_bound")
@@ -1723,7 +1782,33 @@ def c06_index_scan_exhaustive(env, ob):
         last = nxt[-1]["ret"]
         exhausted = f"(= {last.get_disc().term} {bvconst(0, 64)})"
         return ("scan_ends_before_the_index_cursor_is_exhausted", f"(not {exhausted})")
-    return trace_obligation(env, ob, ctx, res, bad, "IndexScan::next returns None although the cursor still has entries", cuts_ok=True)
+    a = trace_obligation(env, ob, ctx, res, bad, "IndexScan::next returns None although the cursor still has entries", cuts_ok=True)
+
+    # ... and a call that produced a row must leave the cursor in place for the next call (an equality on PART of a
+    # composite key matches many entries although every index is unique)
+    names = env.struct_fields("runtime/ops/index_scan.rs", "IndexScan")
+    ci = str(names.index("cursor")) if "cursor" in names else None
+
+    def bad_cursor(path, rv):
+        if path.panics or rv is None or ci is None:
+            return None
+        okv = rv.variants.get("Ok")
+        inner = okv.val.fields.get("0") if okv is not None and isinstance(okv.val, Agg) else None
+        iv = inner.val if inner is not None else None
+        if not isinstance(iv, Agg):
+            return None
+        produced = iv.disc is not None and mirsmt.const_of(iv.disc.term) == 1 or (iv.disc is None and iv.name is not None)
+        if not produced:
+            return None
+        ff = getattr(path, "final_frame", None)
+        me_ = ff.cells.get("_1").val if ff is not None and ff.cells.get("_1") is not None else None
+        obj = me_.cell.val if isinstance(me_, Ref) else None
+        cur = obj.fields.get(ci).val if isinstance(obj, Agg) and obj.fields.get(ci) is not None else None
+        if isinstance(cur, Agg) and cur.name is None and cur.disc is not None and mirsmt.const_of(cur.disc.term) == 0:
+            return ("cursor_discarded_after_producing_a_row", None)
+        return None
+    b = trace_obligation(env, ob, ctx, res, bad_cursor, "IndexScan::next throws its cursor away after producing a row", cuts_ok=True)
+    return merge(a, b)
 
 
 # ---------------------------------------------------------------------------------------------------------------------
